@@ -8,10 +8,10 @@ package main
 // and then advances I.  Nothing is matched by name.
 
 import (
-	"math"
 	"fmt"
 	"go/token"
 	"go/types"
+	"math"
 
 	"golang.org/x/tools/go/ssa"
 )
@@ -339,7 +339,7 @@ func (cur *Cursor) CheckLemmas(p *Prog, c *Check, rule string) bool {
 		isNil      map[ssa.Value]bool // value known nil (true) / non-nil (false) on this path
 		facts      []Lin
 		alts       [][]Lin // alternative sets of facts (what a helper of the reader returned); empty = one empty alternative
-		acted      string // first store/call made while the entry error was not known to be nil
+		acted      string  // first store/call made while the entry error was not known to be nil
 		unmSeen    bool
 		unknown    string
 	}
